@@ -84,6 +84,15 @@ func routeInstances(tier string) []explore.Params {
 		}
 		return out
 	}
+	if tier == "retry" { // a dial that came too early and timed out (5 s), the accept at 6 s, the dial repeated at 7 s
+		for _, a := range []string{"hD6000", "pD6000"} {
+			out = append(out, explore.Params{"pat": a, "retry": "2000"}, explore.Params{"pat": a + ",hA0", "retry": "2000"})
+			for _, v := range []string{"tls", "xlate"} {
+				out = append(out, explore.Params{"pat": a, "retry": "2000", "var": v})
+			}
+		}
+		return out
+	}
 	if tier == "late" { // C06: the connection is used again, with bulk data in both directions, 6 s after it was dialled
 		for _, a := range []string{"hA0", "pA0", "hD2000", "pD4900"} {
 			out = append(out, explore.Params{"pat": a, "late": "1"})
@@ -205,6 +214,20 @@ func init() {
 						cc, err = db.Dial(id)
 					}
 					x.Obs("dial%d err=%v", id, err != nil)
+					if r := ms(p["retry"]); err != nil && r > 0 {
+						// the caller dialled too early (nobody accepted within the waiting period), got the error, and tries again a
+						// while later, by when the other end has accepted: an ordinary dial after an accept
+						x.Pause(r)
+						t0 = x.Now()
+						cc, err = db.Dial(id)
+						x.Obs("redial%d err=%v", id, err != nil)
+						if err != nil {
+							if x.TimeDevs == 0 {
+								x.Fail("T", "Dial(%d) repeated %v after an early attempt had timed out, and 1 s after the other end accepted, failed: %v", id, r, err)
+							}
+							return
+						}
+					}
 					if err != nil {
 						x.Put(fmt.Sprintf("derr%d", slot), fmt.Sprintf("Dial: %v after %v", err, x.Now()-t0))
 						return
